@@ -214,6 +214,46 @@ def respond (head : Bool) (ph : Bytes) (s : RetShape) : Out :=
     next handler iff nothing has been written (and the request did not die in a panic) -/
 def Out.continues (o : Out) : Bool := !o.w.written && !o.panicked
 
+/-! ### several handlers of one request: the lookup happens at every return
+
+  context.go `run()` looks the ReturnHandler up *each time* a handler returns values
+  (`c.Value(reflect.TypeOf(ReturnHandler(nil)))` inside the loop), so a `c.Map(ReturnHandler(h))`
+  (request scope) or `f.Map(ReturnHandler(h))` (app scope) done by a handler in the middle of
+  the chain decides every LATER return of the request, whatever returned before. -/
+
+/-- one handler of the chain, as far as C14 is concerned -/
+inductive Step
+  | silent                                  -- returns nothing, maps nothing
+  | mapReq (h : Handler)                    -- `c.Map(flamego.ReturnHandler(h))`
+  | mapApp (h : Handler)                    -- `f.Map(flamego.ReturnHandler(h))`
+  | ret (ph : Bytes) (s : RetShape)         -- returns the values `s`
+
+/-- `req`: the request scope's entry, `app`: the app scope's (none = the built-in table),
+    `out`: the response so far, `ran`: handlers started -/
+structure ChainSt where
+  req : Option Handler := none
+  app : Option Handler := none
+  out : Out
+  ran : Nat := 0
+
+/-- one iteration of `run()`'s loop: nothing more runs once something is written (or the
+    request died); otherwise the handler runs, and if it returned values the handler resolvable
+    NOW renders them -/
+def ChainSt.step (st : ChainSt) (x : Step) : ChainSt :=
+  if !st.out.continues then st else
+  let st := { st with ran := st.ran + 1 }
+  match x with
+  | .silent => st
+  | .mapReq h => { st with req := some h }
+  | .mapApp h => { st with app := some h }
+  | .ret ph s => { st with out := respondFrom st.out ph st.req st.app s }
+
+def runChain (st : ChainSt) (steps : List Step) : ChainSt := steps.foldl ChainSt.step st
+
+/-- a new request on the same Flame: fresh writer, empty request scope, the app scope as it is -/
+def newRequest (head : Bool) (app : Option Handler) : ChainSt :=
+  { app := app, out := { w := Writer.init head } }
+
 /-! ### the two ways a `func() (int, string)` is invoked -/
 
 /-- `reflect.ValueOf(x)`: the dynamic value; an interface wrapper disappears -/
